@@ -2,8 +2,11 @@ N = {"quick": 200, "thorough": 5000}
 RULE = ("random engines (1-2 exchanges, 1-3 instruments, links mostly healthy) and histories of 1-22/40 events (commands incl. CancelOrders/ClosePositions, order snapshots, cancel responses, "
         "fills, prices, trading toggles, shutdown) with scripted strategy output, stepped with the real process_with_audit; every AuditTick is fed to a real StateReplicaManager and engine and "
         "replica are compared after every record (orders, positions, prices, trading state printed; all remaining EngineState fields - connectivity, balances, market data, tear sheets - compared "
-        "with PartialEq in the harness). 8% of steps re-deliver the last record (must be skipped) or deliver a record two ahead (must be rejected). Half the cases end with `runall`: the whole "
-        "history through sync_run_with_audit / async_run_with_audit over a real channel into a fresh StateReplicaManager::run. 1 case in 8 deliberately re-uses client order ids of confirmed "
+        "with PartialEq in the harness). Every record's EVENT is printed as a digest in label space (`rec_ev`: kind + identifying fields - requests of a command, filter, trading state, order snapshot / cancel "
+        "response / trade / price payload; balance snapshots and disconnect notices collapse to `other`) together with the kinds of the outputs it carries (`rec_out`, model vs code only); the spec "
+        "states `rec_ev` from the INPUT event of the op, not from the model's tick. cancel_orders / close_positions filters vary (none, one or two exchanges, one or two instruments). 8% of steps re-deliver the last record (must be skipped) or deliver a record two ahead (must be rejected). Half the cases end with `runall`: the whole "
+        "history through sync_run_with_audit / async_run_with_audit over a real channel into a fresh StateReplicaManager::run; one `run_ev` digest per record received on the channel (spec: the digests "
+        "of the history's input events, as many as there are records, then `feed-ended`), and the order clause on the two real final states (`run_rep_sync`, spec 1 under the hypotheses). 1 case in 8 deliberately re-uses client order ids of confirmed "
         "orders (outside the FreshCids hypothesis: model vs code only, spec silent on orders). Distinct by SHA-1 of op lines; non-trivial when the observations change at least once")
 ASSUMPTIONS = [
     "PARTIAL: connectivity, balances, market-data registers and per-instrument tear sheets are updated by the identical update_from_account/market calls on engine and replica; they are modelled in C14/C09/C16/C18 and here compared directly on the real engine vs the real replica (rep_rest_eq), not re-proved",
@@ -11,6 +14,8 @@ ASSUMPTIONS = [
     "replication of ORDERS holds under: order reports carry exchange states only (open / cancelled / fully filled / failed / expired / cancel responses, no in-flight echo, no hand-built cancel marker) and FreshCids (an open request reported sent does not re-use the client order id of an order the exchange has confirmed open); both are necessary (examples in Props/C10.lean)",
     "FreshCids, explicitly (review C10-2): it is a HYPOTHESIS of replica_simulation_step / replica_simulation / synced_snapshot, not something the engine enforces. Outside it replication of orders FAILS: re-sending an open request with the client order id of an exchange-confirmed open order makes the engine overwrite its entry with an in-flight one (it forgets the confirmed order) while the replica, which never sees in-flight markers, keeps the confirmed open order - Props/C10.lean's own last `example` before the review section (demoEng: request cid 7, exchange confirms it open, the strategy issues cid 7 again: engine = inFlight, replica = opn rep1). 1 case in 8 of the correspondence leaves the hypothesis on purpose (model vs code only; the oracle is silent on orders there)",
     "orders are compared by TRACKED STATE, not by static fields (review C10-3): `Synced` equates, per (instrument, client order id), the lifecycle state once in-flight markers are set aside (open with the exchange's report / cancel pending / absent); the static fields of an order (quantity, price, kind, exchange) are not part of the replication statement - the engine creates its entry from the strategy's request, the replica from the exchange's report, and no theorem states that the two carry the same quantity / price",
+    "observation of the record's event (oracle review C10-H1): `rec_ev` / `run_ev` are digests - kind, requests (exchange, instrument, client order id, side, price, quantity / order id), filter (`und:` filters only by the number of underlyings), trading state, order snapshot (instrument, cid, quantity, price, state), cancel response (ok|err), trade (instrument, side, quantity), price; NOT observed: times, trade / order ids of fills, fees, the payload of balance snapshots and disconnect notices (`other`), kind / time-in-force of requests. `rec_out` (kinds of the Commanded / AlgoOrders outputs in the record) is model-vs-code only; their content is C03's business",
+    "`rep_sync` / `run_rep_sync` (oracle review C10-M1) are computed by the harness on the two REAL states (engine vs replica, tracked order states with in-flight markers set aside); the spec demands 1 while EventOk / FreshCids held for the whole history of the case, and is silent afterwards",
     "the replica starts from the engine's snapshot; a snapshot that itself contains in-flight markers is outside synced_snapshot's hypothesis",
 ]
 SOURCE_FILES = ["barter/src/engine/audit/mod.rs", "barter/src/engine/audit/state_replica.rs", "barter/src/engine/run.rs", "barter/src/engine/mod.rs"]
@@ -25,3 +30,13 @@ LEVEL_NOTE = ("Trusted: Lean kernel; axioms propext/Classical.choice/Quot.sound;
               "(200 quick / 5000 thorough). Hypotheses for order replication: exchange states only, FreshCids. Components not in the model (connectivity, balances, market data, statistics) are compared directly "
               "between real engine and real replica.")
 SUBCHECKS = ["C10C"]
+
+
+def signature(ops, k, key, impl_line, spec_line):
+    """`rec_ev` / `run_ev` (the event a record carries): name the kind of the event the spec expects, e.g.
+    `clause=rec_ev/cmd_open`; every other key keeps the default `clause=<key>`."""
+    if key in ("rec_ev", "run_ev"):
+        t = spec_line.split()
+        kind = t[1] if len(t) > 1 and not spec_line.startswith("<") else "surplus"
+        return f"clause={key}/{kind}"
+    return None
